@@ -441,13 +441,16 @@ def etcd_created_case(seed, i, engine):
     return c16.EtcdCase("etcd", lines, {"kind": "etcd-created", "engine": engine, "n": n})
 
 
-def big_catchup_case(n):
+def big_catchup_case(n, cache=40000):
     """a watch whose catch-up from the event cache is larger than resultChanLength x eventBatchSize events (the code
     re-batches such a backlog to fit its result channel): it must be served (or refused), never hang, and deliver every
     event once, in order. Implementation only: the executable model needs minutes for tens of thousands of writes."""
-    lines = ["cfg engine=memkv prefix=2f72 cache=40000", "bulk %d %s 76" % (n, hx(b"/r/b")), "rev",
-             "watch w1 %s %d" % (hx(b"/r/"), hist.INIT + 1), "drain w1", "create %s 77" % hx(b"/r/zlive"), "rev", "drain w1"]
-    return core.ImplOnlyCase("backend", lines, {"kind": "bigcatchup", "n": n}, timeout=60)
+    # (cache >= n: from the first event; a smaller cache - any size, not only round ones: --watch-cache-size is the operator's -
+    # has wrapped, the watch starts at the oldest event still cached and its catch-up is the WHOLE cache)
+    start = hist.INIT + 1 + max(0, n - cache)
+    lines = ["cfg engine=memkv prefix=2f72 cache=%d" % cache, "bulk %d %s 76" % (n, hx(b"/r/b")), "rev",
+             "watch w1 %s %d" % (hx(b"/r/"), start), "drain w1", "create %s 77" % hx(b"/r/zlive"), "rev", "drain w1"]
+    return core.ImplOnlyCase("backend", lines, {"kind": "bigcatchup", "n": n, "start": start}, timeout=60)
 
 
 def oracle_bigcatchup(case):
@@ -460,7 +463,7 @@ def oracle_bigcatchup(case):
         return None
     evs = out[4].split()[2]
     revs = [int(e.split(":")[1]) for e in evs.split(",")] if evs != "-" else []
-    if revs != list(range(hist.INIT + 1, hist.INIT + 1 + n)):
+    if revs != list(range(case.meta.get("start", hist.INIT + 1), hist.INIT + 1 + n)):
         return ("the catch-up of a watch with a backlog of %d events delivered %d events, not every event once in order "
                 "(first %s, last %s)" % (n, len(revs), revs[:3], revs[-3:]), "watch-catchup-wrong")
     live = out[7].split()[2]
@@ -541,8 +544,10 @@ def build_cases(tier, seed):
     for j in range(3 if tier == "quick" else 60):
         cases.append(etcd_cancel_once_case(seed, j, ["memkv", "badger", "tikv"][j % 3]))
     cases.append(big_catchup_case(30001))
+    cases.append(big_catchup_case(32768 + 10, cache=32768))     # a wrapped cache of a size that is no multiple of anything round
     if tier != "quick":
         cases += [big_catchup_case(n) for n in (30000, 30099, 35017)]
+        cases += [big_catchup_case(c + 7, cache=c) for c in (30011, 31999, 65536, 39999)]
     return cases
 
 
